@@ -368,8 +368,11 @@ MatchIds(t, X) == {id \in Dom(t) : /\ T < t[id].exp
 
 (* instances that were reported found, whose PTR is still held, and that are *)
 (* not resolved on some bound channel                                       *)
+(* (every instance a live PTR of a browsed type points to, reported found on the channel or not: the daemon follows up on     *)
+(* what is in its cache, also on an instance it failed to report on a channel that replaced an earlier one - that failure    *)
+(* is C04's / C13's business, the questions are in order)                                                                     *)
 UnresolvedT(ch, t) ==
-  UNION {{f \in ch[x].ever \ ch[x].resolved : \E id \in Dom(t) : id[1] = "PTR" /\ id[2] = ch[x].key /\ t[id].tk = f /\ T < t[id].exp}
+  UNION {{t[id].tk : id \in {i \in Dom(t) : i[1] = "PTR" /\ i[2] = ch[x].key /\ T < t[i].exp}} \ ch[x].resolved
          : x \in {y \in Dom(ch) : ch[y].kind = "browse" /\ ch[y].bound}}
 (* s : [tab, sched, fu, v] ; X : <<name key, type>> ; one question of this iteration *)
 Explain(s, ch, X) ==
@@ -478,6 +481,12 @@ HostMarksOwed(tBefore, tAfter, ch) ==
                                                /\ lastT < tBefore[x].exp /\ tBefore[x].exp <= T
                                                /\ (x \in Dom(tAfter) => tAfter[x].at = tBefore[x].at)}}
 
+(* what a found instance still lacks (used by the wake-up cover below and by C04.ask) *)
+LiveFu(t, id) == t[id].forus /\ t[id].ttl # 0 /\ T < t[id].exp
+SrvOf(t, f) == {id \in Dom(t) : id[1] = "SRV" /\ id[2] = f /\ LiveFu(t, id)}
+LackKind(t, f) == IF SrvOf(t, f) = {} THEN "inst"
+                  ELSE IF ~\E a \in Dom(t) : IsAddrTy(a[1]) /\ a[2] \in {t[id].tk : id \in SrvOf(t, f)} /\ LiveFu(t, a) THEN "host" ELSE "none"
+
 (* C12: the wake-up the daemon asks for when it parks covers all pending      *)
 (* time-driven work of the querier side that the history implies             *)
 HostNeeded(t, ch) ==
@@ -494,7 +503,9 @@ DueTimes(t, ch, sc, fu2, ver) ==
   \* a follow-up series that is certainly under way (one question can be nothing else) and certainly not over
   \* (for an instance that is reported found right now: a ServiceRemoved ends its series)
   \cup {fu2[k].lastAny + 500 : k \in {x \in Dom(fu2) : /\ fu2[x].n >= 1 /\ fu2[x].m < 3 /\ fu2[x].tot < 3
-                                                        /\ \E y \in Dom(ch) : ch[y].kind = "browse" /\ ch[y].bound /\ x \in ch[y].found}}
+                                                        /\ \E y \in Dom(ch) : ch[y].kind = "browse" /\ ch[y].bound /\ x \in ch[y].found
+                                                        \* ... and that still lacks something: a series ends when nothing is missing
+                                                        /\ LackKind(t, x) # "none"}}
 WakeCover(t, ch, sc, fu2, ver) ==
   LET due == {d \in DueTimes(t, ch, sc, fu2, ver) : d > T} IN
   IF due = {} THEN {}
@@ -608,10 +619,6 @@ MetricsChecks(t, ch) ==
 (* C04.ask: a found instance that is not resolved is asked for - first its SRV / TXT, then, once an SRV is there, the  *)
 (* addresses of its host - within half a second (judged after one second), as long as its three follow-ups last        *)
 AskInsts(ch) == UNION {ch[x].found \ ch[x].resolved : x \in {y \in Dom(ch) : ch[y].kind = "browse" /\ ch[y].bound /\ ch[y].st = "started" /\ ~ch[y].cacheonly}}
-LiveFu(t, id) == t[id].forus /\ t[id].ttl # 0 /\ T < t[id].exp
-SrvOf(t, f) == {id \in Dom(t) : id[1] = "SRV" /\ id[2] = f /\ LiveFu(t, id)}
-LackKind(t, f) == IF SrvOf(t, f) = {} THEN "inst"
-                  ELSE IF ~\E a \in Dom(t) : IsAddrTy(a[1]) /\ a[2] \in {t[id].tk : id \in SrvOf(t, f)} /\ LiveFu(t, a) THEN "host" ELSE "none"
 AskedNow(t, f, k) == IF k = "inst" THEN \E X \in AllQ : X[1] = f /\ X[2] \in {"ANY", "SRV", "TXT"}
                      ELSE IF k = "host" THEN \E X \in AllQ : X[2] \in {"ADDR", "ANY"} /\ X[1] \in {t[id].tk : id \in SrvOf(t, f)}
                      ELSE TRUE
@@ -690,7 +697,9 @@ Iter ==
                      ELSE s2.chan[x]]
        /\ owedStop' = s2.owedStop
        /\ sched' = AdvanceSched(s1.sched, s3.used)
-       /\ fu' = [k \in Dom(s3.fu) \cap UnresolvedT(s2.chan, s3.tab) |-> s3.fu[k]]
+       \* (an instance that is reported removed in this iteration is through with its series: found again, it is "newly found")
+       /\ fu' = [k \in (Dom(s3.fu) \cap UnresolvedT(s2.chan, s3.tab))
+                         \ {Ev.events[j].fnk : j \in {x \in 1..Len(Ev.events) : Ev.events[x].k = "ServiceRemoved"}} |-> s3.fu[k]]
        /\ lack' = LackStep(lack, s3.tab, s2.chan, s3.fu)
        /\ verifs' = {v \in s1.verifs : T < v.at + 1001}
        /\ lastT' = T
